@@ -27,6 +27,13 @@ Correspondence streams (each for EVERY class of the generated table):
   minonoff-e2e client sends confirmed WriteProperty/ReadProperty requests to the server
                holding the object, the real core.run moves the frames in virtual time
 
+  monitors-*   user monitors appended to obj._property_monitors['presentValue'] whose
+               callbacks command the object again at other priorities (callbacks as data,
+               bounded by budgets), all 20 classes, direct and APDU
+  cov-e2e      SubscribeCOV (confirmed/unconfirmed, cancel, lifetime expiry) through the
+               real ChangeOfValueServices interleaved with commands and clock movements
+               on the binary classes with minimum times, two complete stacks per history
+
 Implementation-side oracle (no model involved), after every command:
   * presentValue == value of the lowest-numbered non-null slot as READ from
     priorityArray, else relinquishDefault;
@@ -164,8 +171,19 @@ def family(ci):
     return "minonoff" if m["minOnOff"] else "enum" if m["enumerated"] else "atomic" if m["atomic"] else "constructed"
 
 
-def pyval(ci, code):
-    """Python value for a code (None = relinquish)"""
+_INTERN = {}
+
+
+def pyval(ci, code, intern=False):
+    """Python value for a code (None = relinquish).  intern=True: one instance per code
+    (constructed datatypes have no __eq__: `value == current_value` in WriteProperty is
+    an identity test there, so a fresh equal DateTime counts as a change and the
+    monitors are called; with one instance per code identity and content agree)"""
+    if intern and isinstance(code, int) and code < 1000:
+        k = (ci["meta"]["name"], code)
+        if k not in _INTERN:
+            _INTERN[k] = ci["mk"][code]()
+        return _INTERN[k]
     if code is None:
         return ()
     if code == BAD_TYPE:
@@ -208,13 +226,42 @@ class Direct:
         self.cname = cname
         self.cfg = cfg
         self.fast = fast
+        self.intern = bool(cfg.get("rules")) and not self.ci["meta"]["atomic"]
         self.obj = make_object(self.ci, cfg, fast)
+        self.left = []                   # firings left per user monitor
+        self.fired = []                  # (priority, code) commanded from inside callbacks, in order
+        self.install_rules(cfg.get("rules") or [])
+
+    def install_rules(self, rules):
+        """user monitors of presentValue, the documented way
+        (obj._property_monitors['presentValue'].append(fn)); a callback is data:
+        [trigger code|None, priority|None, value code|None, budget] = "when told the value
+        became <trigger> (None: on any change) and firings are left, command <value> at
+        <priority> on the same object from inside the callback"."""
+        ci, obj = self.ci, self.obj
+        for k, (trg, prio, val, budget) in enumerate(rules):
+            self.left.append(budget)
+
+            def cb(old, new, k=k, trg=trg, prio=prio, val=val):
+                if self.left[k] > 0 and (trg is None or code_of(ci, new) == trg):
+                    self.left[k] -= 1
+                    entry = [prio, val]
+                    self.fired.append(entry)          # in the order the commands are ISSUED
+                    try:
+                        obj.WriteProperty("presentValue", pyval(ci, val, self.intern), priority=prio)
+                    except Exception:
+                        self.fired.remove(entry)      # a refused one does not count
+                        raise
+            obj._property_monitors["presentValue"].append(cb)
+
+    def cov(self, confirmed, lifetime):
+        return "python:NoCovHere"
 
     # -- commands
     def write(self, prop, code, ai, pr):
         p = {"pv": "presentValue", "pa": "priorityArray", "other": "description"}[prop]
         try:
-            self.obj.WriteProperty(p, pyval(self.ci, code), arrayIndex=ai, priority=pr)
+            self.obj.WriteProperty(p, pyval(self.ci, code, self.intern), arrayIndex=ai, priority=pr)
             return None
         except Exception as e:
             return exc_kind(e)
@@ -307,8 +354,9 @@ def make_object(ci, cfg, fast=False):
     if cfg.get("explicit") or ci["meta"]["minOnOff"] or not ci["meta"]["atomic"]:
         # constructed datatypes have no encodable built-in default; objects with
         # minimum times need the present value before the monitor is attached
-        kw["presentValue"] = pyval(ci, cfg["pv"])
-        kw["relinquishDefault"] = pyval(ci, cfg["def"])
+        intern = bool(cfg.get("rules")) and not ci["meta"]["atomic"]
+        kw["presentValue"] = pyval(ci, cfg["pv"], intern)
+        kw["relinquishDefault"] = pyval(ci, cfg["def"], intern)
     if ci["meta"]["minOnOff"]:
         if cfg.get("on") is not None:
             kw["minimumOnTime"] = cfg["on"]
@@ -526,17 +574,35 @@ def e2e_stack():
     class NSE(NetworkServiceElement):
         _startup_disabled = True
 
-    class App(Application, ReadWritePropertyServices):
+    from bacpypes.service.cov import ChangeOfValueServices
+    from bacpypes.apdu import SimpleAckPDU
+
+    from bacpypes.app import ApplicationIOController
+
+    class App(ApplicationIOController, ReadWritePropertyServices, ChangeOfValueServices):
+        # (confirmed COV notifications go out through request_io)
         def __init__(self, *a, **kw):
-            Application.__init__(self, *a, **kw)
+            ApplicationIOController.__init__(self, *a, **kw)
             self.confirmations = []
+            self.notifications = 0
 
         def confirmation(self, apdu):
             self.confirmations.append(apdu)
+            ApplicationIOController.confirmation(self, apdu)
 
-    lan = Network(broadcast_address=LocalBroadcast())
+        # the subscriber side: take the notifications
+        def do_ConfirmedCOVNotificationRequest(self, apdu):
+            self.notifications += 1
+            self.response(SimpleAckPDU(context=apdu))
 
-    def stack(devid):
+        def do_UnconfirmedCOVNotificationRequest(self, apdu):
+            self.notifications += 1
+
+    def build():
+        lan = Network(broadcast_address=LocalBroadcast())
+        return (stack(10, lan), stack(20, lan))
+
+    def stack(devid, lan):
         dev = LocalDeviceObject(objectName="dev%d" % devid, objectIdentifier=("device", devid),
                                 maxApduLengthAccepted=1024, segmentationSupported="noSegmentation",
                                 vendorIdentifier=999)
@@ -551,7 +617,7 @@ def e2e_stack():
         node = Node(Address(devid), lan)
         nsap.bind(node)
         return app
-    _E2E = (stack(10), stack(20))
+    _E2E = (build(), build)
     return _E2E
 
 
@@ -563,18 +629,36 @@ class E2E(Wire):
 
     def __init__(self, cname, cfg, fast=False):
         Direct.__init__(self, cname, cfg, fast)
-        self.client, self.app = e2e_stack()
+        shared, build = e2e_stack()
+        # histories with COV subscriptions get stacks of their own (subscriptions live
+        # in the application), the others share one pair per process
+        self.client, self.app = build() if self.fresh_stacks else shared
         for o in [o for o in self.app.iter_objects() if o is not self.app.localDevice]:
             self.app.delete_object(o)
         self.app.add_object(self.obj)
         self.oid = (self.ci["cls"].objectType, 1)
 
+    fresh_stacks = False
+
+    def cov(self, confirmed, lifetime):
+        """SubscribeCOV from the client stack: (None, None) cancels"""
+        from bacpypes.apdu import SubscribeCOVRequest
+        req = SubscribeCOVRequest(subscriberProcessIdentifier=7, monitoredObjectIdentifier=self.oid)
+        if confirmed is not None:
+            req.issueConfirmedNotifications = bool(confirmed)
+        if lifetime is not None:
+            req.lifetime = lifetime
+        err, r = self._roundtrip(req)
+        return err if err else self._outcome(r)
+
     def _roundtrip(self, req):
         from bacpypes.pdu import Address
         req.pduDestination = Address(20)
+        from bacpypes.iocb import IOCB
         del self.client.confirmations[:]
         try:
-            self.client.request(req)
+            iocb = IOCB(req)
+            self.client.request_io(iocb)
         except Exception as e:
             return ("client:" + type(e).__name__, None)
         if not self.vt.run(until=self.vt.now):
@@ -585,7 +669,10 @@ class E2E(Wire):
             return (k, None)
         if len(self.client.confirmations) != 1:
             return ("confirmations:%d" % len(self.client.confirmations), None)
-        return (None, self.client.confirmations[0])
+        r = iocb.ioResponse if iocb.ioResponse is not None else iocb.ioError
+        if r is None or r is not self.client.confirmations[0]:
+            return ("iocb-incomplete", None)
+        return (None, r)
 
     def deadline(self):
         """only the object's own task counts (the stacks own tasks of their own)"""
@@ -595,8 +682,13 @@ class E2E(Wire):
         return int(round((t.taskTime - BASE) * 1e6))
 
 
+class E2ECov(E2E):
+    kind = "e2ecov"
+    fresh_stacks = True
+
+
 def make_target(kind, cname, cfg, fast=False):
-    return {"wire": Wire, "e2e": E2E, "direct": Direct}[kind](cname, cfg, fast)
+    return {"wire": Wire, "e2e": E2E, "e2ecov": E2ECov, "direct": Direct}[kind](cname, cfg, fast)
 
 
 # ---------------------------------------------------------------- the oracle (property on the real object)
@@ -668,6 +760,16 @@ class Oracle:
                     cmd_idx = idx
                     if idx <= 6 and self.hold is not None:
                         self.hold = None     # a command at priority <= 6 may legitimately end a hold
+        # -- what the user monitors commanded from inside their callbacks during this event
+        #    counts as commanded (after the outer command: its slot is written first)
+        for (p, v) in self.t.fired:
+            fidx = 16 if p is None else p
+            self.last[fidx] = v
+            if fidx <= 6 and self.hold is not None:
+                self.hold = None
+            if fidx == 6:
+                cmd_idx = 6
+        del self.t.fired[:]
         # -- every slot well formed, and equal to the last command at its priority
         for i in range(1, 17):
             s = slots[i - 1]
@@ -738,7 +840,7 @@ class Oracle:
 
 def reset_req(cname, cfg):
     r = {"op": "reset", "cls": cname, "def": cfg["def"], "pv": cfg["pv"], "inactive": 0, "active": 1,
-         "on": cfg.get("on") or 0, "off": cfg.get("off") or 0}
+         "on": cfg.get("on") or 0, "off": cfg.get("off") or 0, "rules": cfg.get("rules") or []}
     return r
 
 
@@ -747,6 +849,8 @@ def ev_req(ev):
         return {"op": "w", "prop": ev[1], "v": ev[2], "ai": ev[3], "pr": ev[4]}
     if ev[0] == "t":
         return {"op": "tick", "t": ev[1]}
+    if ev[0] == "c":
+        return {"op": "cov"}
     return {"op": "adv", "t": ev[1]}
 
 
@@ -764,20 +868,23 @@ def run_history(ctx, kind, cname, cfg, events, observe_each=True, oracle=True):
     pv, slots = tgt.read()
     if orc:
         orc.start(pv, slots)
-    reps = [{"r": "ok", "pv": pv, "slots": slots, "dl": tgt.deadline(), "now": 0}]
+    reps = [{"r": "ok", "pv": pv, "slots": slots, "dl": tgt.deadline(), "now": 0, "left": list(tgt.left)}]
     n = len(events)
     for k, ev in enumerate(events):
         if ev[0] == "w":
             err = tgt.write(ev[1], ev[2], ev[3], ev[4])
         elif ev[0] == "t":
             err = tgt.tick(ev[1])
+        elif ev[0] == "c":
+            err = tgt.cov(ev[1], ev[2])
         else:
             err = tgt.advance(ev[1])
         done.append(ev)
         reqs.append(ev_req(ev))
         if observe_each or k == n - 1 or err is not None:
             pv, slots = tgt.read()
-            rep = {"r": "ok", "pv": pv, "slots": slots, "dl": tgt.deadline(), "now": tgt.now_us()}
+            rep = {"r": "ok", "pv": pv, "slots": slots, "dl": tgt.deadline(), "now": tgt.now_us(),
+                   "left": list(tgt.left)}
             if orc:
                 orc.after(ev, err, pv, slots, tgt.now_us())
         else:
@@ -926,7 +1033,22 @@ BAD_PRIOS = [0, 17, -1, 255, 2 ** 31, 18, -16]
 BAD_PRIOS_WIRE = [0, 17, -1, 255, 2 ** 31 - 1, 18, -16, -(2 ** 31)]
 
 
-def gen_random(rng, ci, n, timed=False, avoid6=False, wire=False):
+def gen_rules(rng, ci, timed=False):
+    """1..3 user monitors as data [trigger|None, priority|None, value|None, budget]; the
+    budgets bound the nesting depth (sum <= 6).  On objects with minimum times the
+    callbacks stay at priorities 7..16 (the hold theorems/oracle exclude <= 6)."""
+    nv = ci["nvals"]
+    rules = []
+    for _ in range(rng.choice([1, 2, 2, 3])):
+        trg = None if rng.random() < 0.3 else rng.randrange(nv)
+        prios = ([None] + list(range(7, 17))) if timed else ([None] + list(range(1, 17)))
+        prio = rng.choice(prios)
+        val = None if rng.random() < 0.35 else rng.randrange(nv)
+        rules.append([trg, prio, val, rng.choice([1, 1, 2])])
+    return rules
+
+
+def gen_random(rng, ci, n, timed=False, avoid6=False, wire=False, cov=False):
     """wire=True leaves out what the service layer answers before the object is asked
     (presentValue with an array index -> propertyIsNotAnArray; a whole-array write of
     priorityArray fails in cast_out): C15's domain"""
@@ -936,6 +1058,13 @@ def gen_random(rng, ci, n, timed=False, avoid6=False, wire=False):
     bad_prios = BAD_PRIOS_WIRE if wire else BAD_PRIOS
     for _ in range(n):
         r = rng.random()
+        if cov and rng.random() < 0.12:
+            # SubscribeCOV on the same object: cancel / (un)confirmed, indefinite or with a lifetime
+            if rng.random() < 0.4:
+                evs.append(("c", None, None))
+            else:
+                evs.append(("c", rng.choice([True, False]), rng.choice([None, 1, 2, 5, 30])))
+            continue
         if timed and r < 0.35:
             # move the clock: quarter-second grid, sometimes exactly one second steps
             t += rng.choice([250000, 500000, 1000000, 1000000, 2000000, 3000000, 5000000, 11000000])
@@ -1020,6 +1149,49 @@ def directed_timed(on, off, flip=0):
     return evs
 
 
+def directed_cov(on, off):
+    """subscribe-then-cancel and subscribe-then-expire before a state change whose hold
+    is then observed; a subscription that stays; both states"""
+    q = 250000
+    evs, t = [], 0
+
+    def adv(d):
+        nonlocal t
+        t += d
+        evs.append(("a", t))
+
+    def round_(first):
+        other = 1 - first
+        evs.append(("w", "pv", first, None, 8))       # state `first` (held its minimum time)
+        adv(q)
+        evs.append(("w", "pv", None, None, 8))        # relinquished inside the hold
+        adv(q)
+        h = (on if first == 1 else off) * 1000000
+        adv(max(q, h - 3 * q))
+        adv(q); adv(q)                                # across the end of the hold
+        adv((on + off) * 1000000 + q)                 # ... and of the hold of the state fallen back to
+        evs.append(("w", "pv", other, None, 12))
+        adv((on + off) * 1000000 + q)
+        evs.append(("w", "pv", None, None, 12))
+        adv((on + off) * 1000000 + q)
+    evs.append(("c", False, None))                    # unconfirmed, indefinite
+    adv(q)
+    evs.append(("c", None, None))                     # cancelled: the last subscription is gone
+    round_(1)
+    evs.append(("c", True, 2))                        # confirmed, two seconds
+    evs.append(("w", "pv", 1, None, 16))
+    adv(3000000)                                      # expired meanwhile
+    evs.append(("w", "pv", None, None, 16))
+    adv((on + off) * 1000000 + q)
+    round_(1)
+    evs.append(("c", False, 30))                      # one that stays
+    round_(1)
+    evs.append(("c", True, None))                     # renewed as confirmed, indefinite
+    evs.append(("c", None, None))
+    round_(1)
+    return evs
+
+
 def run_timed(ctx, stream, kind, cname, cfg, events):
     """like lockstep, but for direct targets an advance ("a", t) is replaced by single
     scheduler steps at the implementation's own deadlines followed by ("t", t)"""
@@ -1031,7 +1203,7 @@ def run_timed(ctx, stream, kind, cname, cfg, events):
     reqs = [reset_req(cname, cfg)]
     pv, slots = tgt.read()
     orc.start(pv, slots)
-    reps = [{"r": "ok", "pv": pv, "slots": slots, "dl": tgt.deadline(), "now": 0}]
+    reps = [{"r": "ok", "pv": pv, "slots": slots, "dl": tgt.deadline(), "now": 0, "left": list(tgt.left)}]
 
     def one(ev):
         if ev[0] == "w":
@@ -1041,7 +1213,8 @@ def run_timed(ctx, stream, kind, cname, cfg, events):
         done.append(ev)
         reqs.append(ev_req(ev))
         pv, slots = tgt.read()
-        rep = {"r": "ok", "pv": pv, "slots": slots, "dl": tgt.deadline(), "now": tgt.now_us()}
+        rep = {"r": "ok", "pv": pv, "slots": slots, "dl": tgt.deadline(), "now": tgt.now_us(),
+               "left": list(tgt.left)}
         orc.after(ev, err, pv, slots, tgt.now_us())
         if err is not None:
             rep["r"] = "err"
@@ -1127,6 +1300,27 @@ def shard(ctx, spec):
             run_timed(ctx, "minonoff-directed", kind, cname, cfg, directed_timed(on, off))
             run_timed(ctx, "minonoff-directed", kind, cname, dict(cfg, **{"def": 1, "pv": 1}),
                       directed_timed(on, off, flip=1))
+    elif what == "mon":
+        _, cname, kind, idx, n = spec
+        ci = env()["classes"][cname]
+        rng = ctx.sub_rng("c17-mon/%s/%s/%d" % (cname, kind, idx))
+        d = rng.randrange(ci["nvals"])
+        timed = ci["meta"]["minOnOff"] and idx % 2 == 1
+        cfg = {"def": d, "pv": d, "explicit": True, "rules": gen_rules(rng, ci, timed)}
+        if timed:
+            cfg.update(on=rng.choice([0, 1, 3, 5]), off=rng.choice([0, 2, 4]))
+            run_timed(ctx, "monitors-" + kind, kind, cname, cfg,
+                      gen_random(rng, ci, n, timed=True, avoid6=True, wire=(kind != "direct")))
+        else:
+            lockstep(ctx, "monitors-" + kind, kind, cname, cfg, gen_random(rng, ci, n, wire=(kind != "direct")))
+    elif what == "cov":
+        _, cname, on, off, idx, n = spec
+        ci = env()["classes"][cname]
+        rng = ctx.sub_rng("c17-cov/%s/%d/%d/%d" % (cname, on, off, idx))
+        cfg = {"def": 0, "pv": 0, "on": on, "off": off}
+        run_timed(ctx, "cov-e2e", "e2ecov", cname, cfg, directed_cov(on, off))
+        run_timed(ctx, "cov-e2e", "e2ecov", cname, cfg,
+                  gen_random(rng, ci, n, timed=True, avoid6=True, wire=True, cov=True))
     elif what == "corpus":
         run_corpus(ctx)
     else:
@@ -1144,6 +1338,7 @@ def replay_case(ctx, case, stream="replay"):
         ctx.fail("cannot-construct", case, "%s cannot be instantiated: %s: %s"
                  % (case["cls"], type(ex).__name__, ex), cls=case["cls"])
         return
+    events = [tuple(e) for e in events]
     if any(e[0] == "a" for e in events) or (cfg.get("on") or cfg.get("off")):
         run_timed(ctx, stream, case["kind"], case["cls"], cfg, events)
     else:
@@ -1228,6 +1423,17 @@ def run(ctx):
             specs.append(("rand", cname, "wire", i, 100))
         for i in range(1 if ctx.quick else 4):
             specs.append(("rand", cname, "e2e", i, 50 if ctx.quick else 100))
+        for i in range(2 if ctx.quick else 8):
+            specs.append(("mon", cname, "direct", i, 60 if ctx.quick else 100))
+        if ci["meta"]["atomic"]:
+            # (an APDU carries a fresh DateTime every time: see pyval)
+            for i in range(2 if ctx.quick else 4):
+                specs.append(("mon", cname, "wire", i, 40 if ctx.quick else 100))
+        if ci["meta"]["minOnOff"]:
+            covpairs = [(5, 3), (0, 4), (3, 0), (10, 10)] if ctx.quick else \
+                [(a, b) for a in (0, 1, 3, 5, 10) for b in (0, 2, 4, 10)]
+            for (a, b) in covpairs:
+                specs.append(("cov", cname, a, b, 0, 40 if ctx.quick else 80))
         if ci["meta"]["minOnOff"]:
             times = range(0, 11)
             pairs = [(a, b) for a in times for b in times]
